@@ -15,8 +15,11 @@ import (
 	"encoding/json"
 	"errors"
 	"fmt"
+	"io"
+	"log"
 	"math"
 	"net/http"
+	"net/http/httptest"
 	"net/url"
 	"reflect"
 	"sort"
@@ -25,6 +28,7 @@ import (
 	"time"
 	"unsafe"
 
+	"rivaas.dev/app"
 	"rivaas.dev/binding"
 	"verif/harness/hx"
 )
@@ -460,6 +464,29 @@ func genCase(r *hx.Rand) caseT {
 	}
 	if c.Entry != "G" && r.Chance(7, 10) && (c.Entry == "T" || r.Chance(1, 2)) {
 		c.Prefill = r.U64() | 1
+	}
+	if c.Entry == "B" && r.Chance(1, 4) {
+		// app.Context.BindOnly: path, query, header, cookie of one request, in that order
+		c.Entry = "A"
+		c.Opts = optsT{MaxDepth: -1, MaxSlice: -1, MaxMap: -1} // bindInternal passes no options to these sources
+		for _, tag := range []int{1, 0, 3, 4} {
+			kv := genSrc(r, ct.Shapes[tag], tag, c.Opts, &c.NT, r.Range(2, 7))
+			if tag == 1 {
+				// path parameters: one non-empty segment each
+				seen := map[string]bool{}
+				var keep [][2]string
+				for _, p := range kv {
+					if p[1] == "" || p[1] == "." || p[1] == ".." || strings.ContainsAny(p[1], "/") || strings.ContainsAny(p[0], "/:*{}") || seen[p[0]] {
+						continue
+					}
+					seen[p[0]] = true
+					keep = append(keep, p)
+				}
+				kv = keep
+			}
+			c.Srcs = append(c.Srcs, srcCase{Tag: tag, KV: kv})
+		}
+		return c
 	}
 	if c.Entry == "B" {
 		// Bind / BindTo: 1..4 sources in any order (a kind may repeat)
@@ -1002,17 +1029,74 @@ func run(ct *corpusType, c *caseT, s *srcT, dest any) (res any, err error, panic
 	return dest, err, false
 }
 
+// runApp drives app.Context.BindOnly through a real app and request. It returns what bindInternal hands
+// to the binding package (captured inside the handler, so that routing, query parsing and cookie
+// parsing are not re-implemented here) together with the outcome.
+func runApp(c *caseT, dest any) (srcs []*srcT, tags []int, err error, panicked bool, ran bool) {
+	a, aerr := app.New()
+	if aerr != nil {
+		panic(aerr)
+	}
+	pattern := "/bind"
+	path := "/bind"
+	for _, p := range c.Srcs[0].KV {
+		pattern += "/:" + p[0]
+		path += "/" + url.PathEscape(p[1])
+	}
+	a.GET(pattern, func(ctx *app.Context) {
+		ran = true
+		pm := map[string][]string{}
+		for k, v := range ctx.AllParams() {
+			pm[k] = []string{v}
+		}
+		ps := &srcT{kvs: sortedKVs(pm)}
+		qs := &srcT{kvs: sortedKVs(ctx.Request.URL.Query())}
+		hs := &srcT{kvs: sortedKVs(ctx.Request.Header)}
+		cs := &srcT{}
+		for _, ck := range ctx.Request.Cookies() {
+			cs.kvs = append(cs.kvs, [2]any{ck.Name, []string{effectiveCookie(ck.Value)}})
+		}
+		srcs = []*srcT{ps, qs, hs, cs}
+		tags = []int{1, 0, 3, 4}
+		defer func() {
+			if p := recover(); p != nil {
+				panicked = true
+			}
+		}()
+		err = ctx.BindOnly(dest)
+	})
+	req := httptest.NewRequest(http.MethodGet, path, strings.NewReader("{}"))
+	q := url.Values{}
+	for _, p := range c.Srcs[1].KV {
+		q.Add(p[0], p[1])
+	}
+	req.URL.RawQuery = q.Encode()
+	for _, p := range c.Srcs[2].KV {
+		req.Header.Add(p[0], p[1])
+	}
+	req.Header.Set("Content-Type", "application/json")
+	for _, p := range c.Srcs[3].KV {
+		req.AddCookie(&http.Cookie{Name: p[0], Value: p[1]})
+	}
+	a.Router().ServeHTTP(httptest.NewRecorder(), req)
+	return
+}
+
 func emit(id string, c caseT, st *hx.Stats) string {
 	ct := typeByName[c.T]
 	if ct == nil {
 		return "# unknown type " + c.T
 	}
 	var srcs []*srcT
-	if c.Entry == "B" {
+	var srcTags []int
+	switch c.Entry {
+	case "B":
 		for _, sc := range c.Srcs {
 			srcs = append(srcs, buildSrc(sc.Tag, sc.KV))
+			srcTags = append(srcTags, sc.Tag)
 		}
-	} else {
+	case "A":
+	default:
 		srcs = []*srcT{buildSrc(c.Tag, c.Src)}
 	}
 	s := &srcT{}
@@ -1023,12 +1107,25 @@ func emit(id string, c caseT, st *hx.Stats) string {
 	if c.Entry != "G" && c.Prefill != 0 {
 		prefill(hx.NewRand(c.Prefill), reflect.ValueOf(dest).Elem())
 	}
+	// the destination as it is before the bind
+	il := hx.NewLine("")
+	render(reflect.ValueOf(dest).Elem(), il)
+	var appErr error
+	var appPanicked bool
+	if c.Entry == "A" {
+		var ran bool
+		srcs, srcTags, appErr, appPanicked, ran = runApp(&c, dest)
+		if !ran {
+			return "# " + id + " discarded: the request did not reach the handler"
+		}
+	}
 	md, ms, mm := c.Opts.effective()
 	l := hx.NewLine(id).Tok(c.Entry).Nat(c.Tag).Nat(md).Nat(ms).Nat(mm).Bool(c.Opts.CSV).Bool(c.Opts.BaseAuto)
 	ct.Node.tokens(l)
-	render(reflect.ValueOf(dest).Elem(), l)
+	l.Tok(strings.TrimSpace(il.String()))
 	// source(s) as the model sees them
-	if c.Entry == "B" {
+	multiEntry := c.Entry == "B" || c.Entry == "A"
+	if multiEntry {
 		l.Nat(len(srcs))
 	}
 	seen := map[string]bool{}
@@ -1040,8 +1137,8 @@ func emit(id string, c caseT, st *hx.Stats) string {
 		}
 	}
 	for i, s := range srcs {
-		if c.Entry == "B" {
-			l.Nat(c.Srcs[i].Tag)
+		if multiEntry {
+			l.Nat(srcTags[i])
 		}
 		l.Nat(len(s.kvs))
 		for _, kv := range s.kvs {
@@ -1071,7 +1168,14 @@ func emit(id string, c caseT, st *hx.Stats) string {
 	}
 	l.Nat(n).Tok(strings.TrimSpace(tl.String()))
 	in := l.String()
-	res, err, panicked := run(ct, &c, s, dest)
+	var res any
+	var err error
+	var panicked bool
+	if c.Entry == "A" {
+		res, err, panicked = dest, appErr, appPanicked
+	} else {
+		res, err, panicked = run(ct, &c, s, dest)
+	}
 	l.Sep()
 	outcome := "ok"
 	switch {
@@ -1230,6 +1334,7 @@ func main() {
 	a := hx.ParseArgs()
 	w := hx.Out()
 	defer w.Flush()
+	log.SetOutput(io.Discard) // net/http reports every cookie byte it sanitises
 	loadCorpus()
 	switch a.Cmd {
 	case "gen":
